@@ -5,6 +5,7 @@ mode round trips) over C01's grids."""
 import importlib, re
 from mc import core, grid, urlgram
 from mc.props import c01
+from mc.ref import vocab
 
 PROP = "C02"
 
@@ -64,7 +65,7 @@ def idem_clauses(cu, url, dp, sf, quoted):
 
 B_SCHEME = ["http", "https"]
 B_AUTH = ["", "u:p@"]
-B_HOST = ["a.com", "télérama.fr", "b.a.co.uk"]
+B_HOST = ["a.com", "télérama.fr", "b.a.co.uk", "été.télérama.fr"]
 B_PATH = ["", "/a", "/a/b é/c d", "/a/"]
 B_QUERY = ["", "k=v", "k=a é&l=w x", "k"]
 B_FRAG = ["", "f", "a é b"]
@@ -74,7 +75,7 @@ BASE = [("b_scheme", B_SCHEME), ("b_auth", B_AUTH), ("b_host", B_HOST), ("b_path
 ESC = ["raw", "letter", "space", "nonascii", "all"]
 TOGGLES = [
     ("t_scheme_case", ["lower", "upper", "mixed"]),
-    ("t_host", ["asis", "upper", "puny", "PUNY"]),
+    ("t_host", ["asis", "upper", "puny", "PUNY", "mixed"]),
     ("t_port", ["", "default"]),
     ("t_hex", ["upper", "lower"]),
     ("t_esc_path", ESC),
@@ -83,7 +84,7 @@ TOGGLES = [
     ("t_esc_auth", ["raw", "letter"]),
     ("t_wrap", ["", "left", "right", "tabs", "nbsp", "ctrl-space-left", "space-ctrl-right"]),
     ("t_ctrl", ["", "after-scheme", "in-host", "before-path", "end-c1", "in-query-del"]),
-    ("t_dot", ["", "lead-dot", "lead-pair", "lead-empty", "mid-dot", "mid-pair", "mid-empty"]),
+    ("t_dot", ["", "lead-dot", "lead-pair", "lead-empty", "mid-dot", "mid-pair", "mid-empty", "mid-emptypair"]),
     ("t_empty", ["", "?", "#", "?#"]),
 ]
 
@@ -139,6 +140,14 @@ def build_variant(case, toggled=True):
         host = puny(host, False)
     elif th == "PUNY":
         host = puny(host, True)
+    elif th == "mixed":
+        # only the first non-ASCII label in punycode, the others left in Unicode
+        labels, done = [], False
+        for l in host.split("."):
+            if not l.isascii() and not done:
+                l, done = l.encode("idna").decode("ascii"), True
+            labels.append(l)
+        host = ".".join(labels)
     port = ""
     if g("t_port", "") == "default":
         port = ":80" if scheme == "http" else ":443"
@@ -150,7 +159,7 @@ def build_variant(case, toggled=True):
     td = g("t_dot", "")
     if td:
         where, kind = td.split("-")
-        ins = {"dot": "/.", "pair": "/x/..", "empty": "/"}[kind]
+        ins = {"dot": "/.", "pair": "/x/..", "empty": "/", "emptypair": "/x//.."}[kind]
         if where == "lead":
             # at the start of the path ('' and '/' both denote the root: keep a non-empty path)
             path = ins + (path if path else "/")
@@ -208,10 +217,31 @@ def evaluate_bucket(case):
     return [], tags, rb[1]
 
 
+NBASES = 2 * 2 * len(B_HOST) * 4 * 4 * 3
 BUCKETS = grid.Grid("buckets", TOGGLES, free=BASE + c01.OPT_FREE)
 
 
+def sweep_cases():
+    return [{"sweep": [ord(c), pos], "quoted": q} for c in vocab.space_like_chars() for pos in vocab.SWEEP_POSITIONS for q in (False, True)]
+
+
+def evaluate_sweep(w):
+    cu = importlib.import_module("ural.canonicalize_url").canonicalize_url
+    url = vocab.sweep_url(chr(w["sweep"][0]), w["sweep"][1])
+    return idem_clauses(cu, url, "https", False, w.get("quoted", False))[0]
+
+
+def _sweep_task(ws):
+    out = []
+    for w in ws:
+        for (c, e, g) in evaluate_sweep(w):
+            out.append((c, w, e, g))
+    return len(ws), out
+
+
 def judge(w):
+    if "sweep" in w:
+        return evaluate_sweep(w)
     if "history" in w:
         return core.judge_history(PROP + ".pure", w, c01.pure_thunk)
     if w.get("kind") == "bucket":
@@ -229,7 +259,7 @@ def fails_fn(clause, w):
 
 
 def simplify(w):
-    if "history" in w:
+    if "history" in w or "sweep" in w:
         return []
     g = BUCKETS if w.get("kind") == "bucket" else c01.ALL
     out = g.wsimplify(w)
@@ -246,7 +276,7 @@ def run(chk):
         "default port, hex case, raw-vs-escaped letters / spaces / non-ASCII per component, surrounding whitespace, embedded "
         "control characters, '.', 'x/..' and empty segments, empty '?' '#') x 4 option vectors: canonicalize_url(variant) == "
         "canonicalize_url(base). E3: on every case of C01's grids the orbit of repeated application is followed and both "
-        "mode round-trips compared." % (2 * 2 * 3 * 4 * 4 * 3)
+        "mode round-trips compared." % NBASES
     )
     d = 2 if quick else 3
     failures, tags = grid.run(chk, BUCKETS, d, evaluate_bucket,
@@ -256,6 +286,20 @@ def run(chk):
     n0 = chk.cov["states"]
     f2, tags2, ind = c01.explore(chk, PROP, evaluate_idem, fails_fn, shrink=(c01.ALL.wit, simplify, fails_fn))
     chk.cov["transitions"] = n0 * 2 + (chk.cov["states"] - n0) * 5
+    sw = sweep_cases()
+    step = 400
+    nsw, swf = 0, []
+    for k, f in core.pmap(_sweep_task, [sw[i:i + step] for i in range(0, len(sw), step)], chk.seed):
+        nsw += k
+        swf.extend(f)
+    chk.cov["parts"]["whitespace-sweep"] = {"cases": nsw, "chars": len(vocab.space_like_chars()), "failing": len(swf)}
+    chk.add("states", nsw)
+    chk.add("traces_validated_against_impl", nsw)
+    chk.rule.append("Sweep: every Unicode white-space / separator / control character (%d) escaped at 6 positions x both modes: "
+                    "idempotence and mode round-trips." % len(vocab.space_like_chars()))
+    for (c, w, e, g) in sorted(swf, key=lambda f: (f[0], core.canon_json(f[1]))):
+        chk.clause(c, failed=1)
+        chk.witness(c, w, e, g)
     chk.rule.append("H2: every ordered pair of %d canonicalize_url calls from a reset module state." % len(c01.pure_label_cases()))
     core.explore_pairs(chk, PROP + ".pure", [(l, c01.pure_thunk(l)) for l in c01.pure_label_cases()])
     chk.clause(PROP + ".idem", checked=ind, nontrivial=tags2.get("changed", 0))
